@@ -16,7 +16,7 @@ func init() {
 	core.Register(&core.Check{
 		ID:    "C37",
 		Level: "exploration",
-		Rule: "a form created through api.Create with one field of every type (text, multiline text, date d.m.yyyy, checkbox, radio group of 3, combo box of 3, multi-select list box of 3); (a) fill(export(x)) leaves every exported value unchanged, on the initial form and after every fill; (b) per field the full value domain with the other fields at their defaults (text {empty, x, 'ü(', 300 chars}; multiline {empty, two lines, ü}; date {31.12.1999, 1.2.2003}; checkbox both; each radio/combo option; every subset of list options incl. empty, and reorderings) x locked {off,on}, plus the full product of the three choice fields x checkbox; (c) shrinking selections: every ordered pair (S1 -> S2) of list box subsets filled one after the other; fill then export must report exactly the filled values and lock state for every field (compared as a set keyed by field name); " +
+		Rule: "a form created through api.Create with one field of every type (text, multiline text, date d.m.yyyy, checkbox, radio group of 3, combo box of 3, multi-select list box of 3); (a) fill(export(x)) leaves every exported value unchanged, on the initial form and after every fill; (b) per field the full value domain with the other fields at their defaults (text {empty, x, 'ü(', 300 chars}; multiline {empty, two lines, ü}; date {31.12.1999, 1.2.2003}; checkbox both; each radio/combo option; every subset of list options incl. empty, and reorderings) x locked {off,on}, plus the full product of the three choice fields x checkbox; (c) shrinking selections: every ordered pair (S1 -> S2) of list box subsets filled one after the other; fill then export must report exactly the filled values and lock state for every field (compared as a set keyed by field name); (d) forms the harness did not create: the repository's core-font form samples (quick 4, thorough 24) and hand-built AcroForms (hierarchical names, inherited /FT, UTF-16 values, unusual check box states, radio groups with and without /Opt, [export display] option pairs, /I, /MaxLen; classic and object-stream containers): fill(export(x)) is the identity and, for every unlocked field, every alternative value of a per-kind domain derived from the export (each option, empty and single selections, a pair for multi-select, toggled check box, two dates in the field's format, three texts) filled alone shows up in the export with every other field unchanged; " +
 			"non-trivial = a fill that changes at least one value or lock flag",
 		Assume: []string{"'locked fields keep their values' is read in the weaker, documented sense: the locked attribute sets the read-only flag and does not alter the value filled in the same step; a locked field not mentioned in the fill data is untouched"},
 		Run:    runC37,
@@ -303,4 +303,6 @@ func runC37(r *core.R) {
 		}
 	})
 	r.Sample(map[string]any{"pair": [][]string{{"x", "y", "z"}, {"x", "z"}}})
+	// (d) forms the harness did not create: repository samples and hand-built AcroForms
+	c37Samples(r)
 }
